@@ -20,6 +20,8 @@ type Item struct {
 	Key        string // canonical spec for distinctness
 	NonTrivial bool
 	Labels     []string
+	DeclX      string // top-level declarations this item needs, XGo side
+	DeclG      string // same, Go side
 }
 
 // Program is a list of items plus optional extra top-level declarations per language.
@@ -98,7 +100,7 @@ type box struct {
 
 func render(items []Item, decls []string, xgo bool) string {
 	var b strings.Builder
-	b.WriteString("package main\n\nimport (\n\t\"fmt\"\n\t\"sort\"\n\t\"strings\"\n)\n")
+	b.WriteString("package main\n\nimport (\n\t\"errors\"\n\t\"fmt\"\n\t\"sort\"\n\t\"strings\"\n)\n\nvar _ = errors.New\n")
 	extra := strings.Join(decls, "\n\n")
 	all := extra
 	for _, it := range items {
@@ -114,9 +116,13 @@ func render(items []Item, decls []string, xgo bool) string {
 		b.WriteString("\n" + extra + "\n")
 	}
 	for i, it := range items {
-		body := it.G
+		body, decl := it.G, it.DeclG
 		if xgo {
-			body = it.X
+			body, decl = it.X, it.DeclX
+		}
+		fmt.Fprintf(&b, "\n// @item %d\n", i)
+		if decl != "" {
+			b.WriteString(strings.TrimSpace(decl) + "\n")
 		}
 		fmt.Fprintf(&b, "\nfunc item%d() {\n\tfmt.Println(\"item %d %s\")\n%s\n}\n", i, i, it.Kind, indent(body))
 	}
